@@ -1635,6 +1635,15 @@ impl IdmServerAuthTransaction<'_> {
     ) -> Result<Option<LdapBoundToken>, OperationError> {
         match self.validate_and_parse_token_to_identity_token(&lae.token, ct)? {
             Token::UserAuthToken(uat) => {
+                // A bind is an authentication: the account must be inside its validity window
+                // and the session must still be valid, exactly as when the token is presented
+                // natively.
+                if self
+                    .process_uat_to_identity(&uat, ct, Source::Internal)
+                    .is_err()
+                {
+                    return Ok(None);
+                }
                 let spn = uat.spn.clone();
                 Ok(Some(LdapBoundToken {
                     session_id: uat.session_id,
@@ -1643,6 +1652,9 @@ impl IdmServerAuthTransaction<'_> {
                 }))
             }
             Token::ApiToken(apit, entry) => {
+                if !ServiceAccount::check_api_token_valid(ct, &apit, &entry) {
+                    return Ok(None);
+                }
                 let spn = entry
                     .get_ava_single_proto_string(Attribute::Spn)
                     .ok_or_else(|| OperationError::MissingAttribute(Attribute::Spn))?;
